@@ -124,9 +124,11 @@ static inline std::vector<size_t> gen_cuts(Ctx &c, size_t len) {
     std::sort(cuts.begin(), cuts.end()); cuts.erase(std::unique(cuts.begin(), cuts.end()), cuts.end());
     return cuts;
 }
+// Largest piece handed to a body callback: libcurl's CURL_MAX_WRITE_SIZE unless a property sets it (a transport with a bigger buffer)
+static size_t g_max_piece = 16384;
 static inline std::vector<std::pair<size_t, size_t>> fragments(size_t len, const std::vector<size_t> &cuts) {
     std::vector<std::pair<size_t, size_t>> fr; size_t at = 0;
-    auto emit = [&](size_t a, size_t b) { while (a < b) { size_t n = std::min<size_t>(16384, b - a); fr.push_back({a, n}); a += n; } };
+    auto emit = [&](size_t a, size_t b) { while (a < b) { size_t n = std::min<size_t>(g_max_piece, b - a); fr.push_back({a, n}); a += n; } };
     for (size_t p : cuts) { if (p > at && p < len) { emit(at, p); at = p; } }
     if (at < len) emit(at, len);
     return fr;
